@@ -754,7 +754,7 @@ func logConfig(cfg map[string]any) {
 }
 
 func TestConcurrentUse(t *testing.T) {
-	bs := builders()
+	bs := append(builders(), paramSetsBuilder())
 	rapid.Check(t, func(rt *rapid.T) {
 		entropy := rapid.Uint64().Draw(rt, "entropy")
 		detrand.Seed(entropy)
